@@ -47,6 +47,9 @@ CONFIGS = {
     'tracing':  {'defs': ['NDEBUG'], 'vm': 'direct'},
     'assert':   {'defs': ['GRAPHITE2_NTRACING'], 'vm': 'direct'},
     'nofile':   {'defs': ['GRAPHITE2_NTRACING', 'NDEBUG', 'GRAPHITE2_NFILEFACE'], 'vm': 'direct'},
+    # cmake -DGRAPHITE2_TELEMETRY=ON: only the units that install an allocation category are parsed (C09 TELESCOPE)
+    'tele':     {'defs': ['GRAPHITE2_NTRACING', 'NDEBUG', 'GRAPHITE2_TELEMETRY'], 'vm': 'direct',
+                 'units': ['gr_face.cpp', 'Face.cpp', 'Pass.cpp', 'Code.cpp', 'gr_logging.cpp']},
 }
 
 
@@ -77,6 +80,12 @@ def unit_list(cfg):
         units = [u for u in units if u != 'json.cpp']
     if 'GRAPHITE2_NFILEFACE' in defs:
         units = [u for u in units if u != 'FileFace.cpp']
+    only = CONFIGS[cfg].get('units')
+    if only:
+        gone = [u for u in only if u not in units]
+        if gone:
+            raise AnalysisBroken('configuration %s names units that do not exist: %s' % (cfg, gone))
+        units = [u for u in units if u in only]
     return units
 
 
